@@ -461,7 +461,7 @@ class Gen(object):
         finally:
             self.depth -= 1
 
-    def e_comp(self, kind=None):
+    def e_comp(self, kind=None, walrus_elt=False):
         self.features.add('comprehension')
         outer = self.scope
         kind = kind or self.choice(['list', 'set', 'gen', 'dict'])
@@ -493,7 +493,15 @@ class Gen(object):
             if kind == 'dict':
                 node = ast.DictComp(key=self.expr(), value=self.expr(), generators=gens)
             else:
-                elt = self.expr()
+                if walrus_elt and self.allow_walrus and not self.hard_nowalrus:
+                    elt = self.e_walrus()
+                elif self.allow_walrus and not self.hard_nowalrus and self.depth < 4 and self.p(0.12):
+                    # a comprehension nested in the element whose own element is an assignment expression: the target binds outside
+                    # both comprehensions and must not collide with either iteration variable
+                    self.features.add('walrus_in_nested_comp')
+                    elt = self.e_comp(walrus_elt=True)
+                else:
+                    elt = self.expr()
                 cls = {'list': ast.ListComp, 'set': ast.SetComp, 'gen': ast.GeneratorExp}[kind]
                 node = cls(elt=elt, generators=gens)
         finally:
